@@ -114,6 +114,9 @@ pub enum ChmodSel {
     Dirs(u32),
     Files(u32),
     Sym(String),
+    /// several options on one builder: octal modes for directories and/or files (0 = not given) and a symbolic
+    /// expression, set before or after them; an octal mode has priority for its kind, the others get the expression
+    Mix { dirs: u32, files: u32, sym: String, sym_first: bool },
 }
 
 #[derive(Clone, PartialEq, Eq, Debug, Hash, Serialize, Deserialize)]
